@@ -60,6 +60,11 @@ def cases(tier, seed):
                             out.append({"key": f"trunc/{base}/R=1/scale=2^{e}", "entry": "classical_qsvd", "m": m, "n": n, "vals": vals, "kU": kU, "kV": kV, "row": row, "R": 1, "scale": e})
                     for R in range(1, p + 1):
                         out.append({"key": f"trunc/{base}/R={R}", "entry": "classical_qsvd", "m": m, "n": n, "vals": vals, "kU": kU, "kV": kV, "row": row, "R": R})
+    # component-support masks: integer entries confined to span of a subset of {1,i,j,k}; spectrum from the oracle
+    for m, n in ((2, 2), (3, 3), (3, 2), (2, 3), (4, 4)):
+        for mask in G.COMPONENT_MASKS:
+            out.append({"key": f"full/mask/{m}x{n}/{G.mask_name(mask)}", "entry": "classical_qsvd_full", "m": m, "n": n, "vals": None, "kU": "mask", "kV": "mask", "row": 0, "R": None, "mask": mask})
+            out.append({"key": f"trunc/mask/{m}x{n}/{G.mask_name(mask)}/R=1", "entry": "classical_qsvd", "m": m, "n": n, "vals": None, "kU": "mask", "kV": "mask", "row": 0, "R": 1, "mask": mask})
     # enumerated list of larger shapes, simple spectra
     for (m, n) in ((9, 7), (7, 9), (12, 12), (17, 5), (5, 17), (33, 2), (2, 33)):
         p = min(m, n)
@@ -75,13 +80,24 @@ def run_case(case, seed):
     m, n, vals, R = case["m"], case["n"], case["vals"], case["R"]
     p = min(m, n)
     fill = G.Fill(seed + 31 * case["row"], stream=hash_tag(f"{m}x{n}/{case['kU']}/{case['row']}"))
-    A, Uq, Vq = SG.build(m, n, vals, case["kU"], case["kV"], fill, variant=len(vals) + int(sum(vals) * 4))
+    if case.get("mask"):
+        B_ = fill.quat_int(m, n, -4, 4).astype(float)
+        B_[B_ == 0] = 2.0
+        A = G.apply_component_mask(B_, case["mask"])
+        sv_ = O.svals(A)
+        vals = [float(v) if v > 1e-12 * max(sv_[0], 1.0) else 0.0 for v in sv_]
+        # treat numerically coincident values as one cluster
+        for t in range(1, len(vals)):
+            if vals[t] > 0 and abs(vals[t] - vals[t - 1]) <= 1e-9 * vals[0]:
+                vals[t] = vals[t - 1]
+    else:
+        A, Uq, Vq = SG.build(m, n, vals, case["kU"], case["kV"], fill, variant=len(vals) + int(sum(vals) * 4))
     if case.get("scale"):
         A = np.ldexp(A, case["scale"])
         vals = [float(np.ldexp(v, case["scale"])) for v in vals]
     info = SG.cluster_info(vals, m, n)
     degenerate = SG.degenerate_within(vals, m, n, R)
-    tags = {"entry": case["entry"], "degenerate": degenerate, "factors": case["kU"], **info}
+    tags = {"entry": case["entry"], "degenerate": degenerate, "factors": "hh" if case["kU"] == "mask" else case["kU"], **info}
     Aq = relayout(G.to_quat(A), case.get("lay", "C"))
     before = Aq.tobytes()
     if R is None:
